@@ -468,7 +468,11 @@ where
 
             f(&Dispatch::none())
         })
-        .unwrap_or_else(|_| f(&Dispatch::none()))
+        // This thread's dispatcher state has been destroyed (we are being
+        // called from a thread-local destructor while the thread exits), so
+        // the thread no longer has a scoped default: the global default
+        // applies, exactly as on the fast path above.
+        .unwrap_or_else(|_| f(get_global()))
 }
 
 /// Executes a closure with a reference to this thread's current [dispatcher].
